@@ -20,6 +20,7 @@ struct Ledger
     long rel_n[MAXR];
     int nrel = 0;
     int finished = 0;
+    long rescued = 0;
     long permits_before(uint64_t t) const
     {
         long s = 0;
@@ -120,7 +121,7 @@ static void final_check(Sem& sem, Ledger& L, int T)
     PMC_ASSERT(L.finished == T, "task-lost", "%d of %d tasks finished", L.finished, T);
     long value = (long) sem.sem_.value_;
     PMC_ASSERT(value == L.c + L.rel_done - L.acquired, "permit-lost", "final count %ld != initial %ld + released %ld - acquired %ld", value, L.c, L.rel_done, L.acquired);
-    pmc_outcome("c=%ld rel=%ld acq=%ld", L.c, L.rel_done, L.acquired);
+    pmc_outcome("c=%ld rel=%ld acq=%ld rescued=%ld", L.c, L.rel_done, L.acquired, L.rescued);
 }
 
 // T tasks, OPS ops each, alphabet size ALPHA (prefix of Op)
@@ -140,7 +141,7 @@ static void sem_tasks()
         prev = w;
         for (int i = 0; i < OPS; ++i) { ops[t * OPS + i] = w % ALPHA; w /= ALPHA; }
     }
-    if (!terminates(L.c, ops, T, OPS)) { pmc_outcome("skipped"); return; }
+    bool needs_rescue = !terminates(L.c, ops, T, OPS);
     Sem sem(L.c);
     pmc_watch(&sem, sizeof sem, "semaphore");
     pmc_on_stuck(on_stuck);
@@ -150,6 +151,24 @@ static void sem_tasks()
             rt::watch_self(t == 0 ? "task0" : t == 1 ? "task1" : "task2");
             for (int i = 0; i < OPS; ++i) do_op(sem, L, ops[t * OPS + i]);
             ++L.finished;
+        });
+    if (needs_rescue)
+        // programs in which a blocking acquire can legitimately starve (try/timed takers may win the
+        // permits): a rescuer adds a permit only when every unfinished task sits in acquire() AND the
+        // semaphore holds no permit - so a lost wake-up (permit present, acquirer blocked) stays stuck
+        rt::spawn([&] {
+            int guard = 0;
+            while (L.finished < T && ++guard < 400)
+            {
+                if (L.in_acquire > 0 && L.in_acquire == T - L.finished && (long) sem.sem_.value_ < 1)
+                {
+                    L.rel_started += 1;
+                    sem.release(1);
+                    L.rel_done += 1;
+                    ++L.rescued;
+                }
+                pika::this_thread::yield();
+            }
         });
     rt::stop();
     final_check(sem, L, T);
